@@ -231,6 +231,14 @@ package hessian
 //@   assigns @rset, @E
 //@   ensures [C14:setslice-total] true
 
+//@ func (*_refHolder).change
+//@   assigns h.value
+//@   ensures [C03,C04:holder-carries-latest] h.value == v || (R.canAddr(old(h.value)) && R.canAddr(v) && R.pointer(old(h.value)) == R.pointer(v))
+
+//@ func (*_refHolder).add
+//@   assigns h.destinations
+//@   ensures [C04:holder-queues] len(h.destinations) == len(old(h.destinations)) + 1
+
 //@ func (*_refHolder).notify
 //@   loop 1 invariant [C14:notify-index] true
 
